@@ -1,6 +1,6 @@
 (* Properties/C16.v — Properties: flat dotted keys and trees correspond exactly and deterministically. *)
 From Coq Require Import List String Bool ZArith Arith Permutation.
-From YT Require Import Base.Str Base.KV Base.Sort Model.Doc Model.Dom Model.Builder Model.Props Proofs.PropsProofs.
+From YT Require Import Base.Str Base.KV Base.Sort Model.Doc Model.Dom Model.Builder Model.Props Proofs.PropsProofs Proofs.FromPropsProofs.
 Import ListNotations.
 Local Open Scope list_scope.
 
@@ -40,9 +40,24 @@ Theorem C16_unflatten_exact : forall kv q x,
 Proof. exact unflatten_ord_exact. Qed.
 Print Assumptions C16_unflatten_exact.
 
-(* Not theorems (decided by the correspondence on every run): the same two statements for
-   FromProperties (which goes through AddValueAt, so a component like "a[0]" builds a list), and the
-   text round trip (magiconair parsing is external). *)
+(* Builder().FromProperties (which goes through AddValueAt): when no key is a dotted prefix of
+   another and the segments are path-safe, every pair of the flat map is found by Lookup at its key —
+   in ANY processing order, hence also in the sorted order the code uses.  (Non-conflicting keys are
+   diverging positions, so no insertion disturbs an earlier one: C03's frame.) *)
+Theorem C16_from_properties_pairs : forall kv k v,
+  Forall (fun e => key_ok (fst e)) kv -> conflict_free kv -> In (k, v) kv ->
+  lookup k (from_properties kv) = Some v.
+Proof. exact from_properties_pairs. Qed.
+Print Assumptions C16_from_properties_pairs.
+
+Theorem C16_from_properties_any_order : forall kv k v,
+  Forall (fun e => key_ok (fst e)) kv -> conflict_free kv -> In (k, v) kv ->
+  lookup k (Con (from_properties_ord kv)) = Some v.
+Proof. exact from_properties_ord_pairs. Qed.
+Print Assumptions C16_from_properties_any_order.
+
+(* Not theorems (decided by the correspondence on every run): exactness for FromProperties (no
+   other leaves), and the text round trip (magiconair parsing is external). *)
 
 Example C16_ex :
   let kv := [("a.b"%string, Leaf (SStr "1")); ("a.c.d"%string, Leaf (SStr "2")); ("x"%string, Leaf (SStr "3"))] in
